@@ -223,3 +223,13 @@ def src_resolved(A: Analysis, func: FuncInfo, expr, depth=3) -> str:
 
 
 _SRC_RESOLVED: dict = {}
+
+
+def facts_text(A: Analysis, func: FuncInfo, cfg: CFG, node_id: int) -> List[Tuple[str, bool]]:
+    """Branch facts at a node as (source text with single-assignment locals resolved in the function that owns the
+    test - the function itself or an inlined helper -, polarity)."""
+    out = []
+    for a, pol, owner in cfg.facts_owned(node_id):
+        f = getattr(owner, '_info', None) or func
+        out.append((src_resolved(A, f, a), pol))
+    return out
